@@ -278,6 +278,7 @@ class Encoder:
                 arg = BV8(op["ints"][0])
                 new = {"swap": arg, "fetch_add": val + arg, "fetch_sub": val - arg, "fetch_and": val & arg, "fetch_or": val | arg}[a]
                 self.append_msg(w, t, new, op["ords"][0], True, view, loc=loc)
+                w.last_val = val
                 nxt = self.branch_int(w, succ, val)
             elif a == "compare_exchange":
                 exp, new = op["ints"]
@@ -528,6 +529,10 @@ class Encoder:
                 w.s("status%d" % o_, BV8(status_))
                 if res_ is not None:
                     w.s("res%d" % o_, BV8(res_))
+            elif key == "inv_if_nonzero":      # invocation stamp of op val, taken only when this RMW read a non-zero value
+                hit = w.last_val != BV8(0)
+                w.s("inv%d" % val, z3.If(hit, N(i), w.g("inv%d" % val)))
+                w.s("status%d" % val, z3.If(z3.And(hit, w.g("status%d" % val) == BV8(0)), BV8(1), w.g("status%d" % val)))
             elif key == "stamp_hand":          # record which waker the thread holds at this step (res register of op val)
                 w.s("res%d" % val, w.g("hand%d" % t))
             elif key == "lastw":
